@@ -107,7 +107,7 @@ func (j *Job) Cancel() {
 	j.s.jobs[j.ID] = nil
 	delete(j.s.jobs, j.ID)
 	close(j.done)
-	j.done = nil
+	j.Status, j.done = StatusCanceled, nil
 	if j.s.lock.Unlock(); j.Update == nil {
 		return
 	}
